@@ -155,6 +155,19 @@ func checkC17(sc *SerCase, rec *evid.Rec) (vs []pbt.Violation) {
 	if rec.WantSample() && len(st.Types) >= 3 && b1 != nil {
 		rec.Sample(sampleOf(sc, b1))
 	}
+	// "populated ... by parsing": parse the bytes into an empty message of the
+	// same template and judge what THAT message puts on the wire
+	if b1 != nil && len(vs) == 0 && st.TrailerPop == 0 && gen.DuplicateTag(&sc.Tpl) == "" && !hasBlankEntry(&sc.Case) {
+		if e, err := build.Empty(&sc.Tpl); err == nil {
+			if perr, pan := parse(true, e, append([]byte(nil), b1...)); perr == nil && pan == nil {
+				keep := m
+				m = e
+				judge("serialization of the message parsed from these bytes")
+				m = keep
+				rec.Hist("parsed-then-serialized")
+			}
+		}
+	}
 	// standalone serializers
 	standalone := func(name string, got []byte, exp []gen.Leaf) {
 		var toks []ref.Tok
@@ -189,4 +202,30 @@ func checkC17(sc *SerCase, rec *evid.Rec) (vs []pbt.Violation) {
 func TestC17(t *testing.T) {
 	rec := evid.New("C17")
 	pbt.Run(t, "C17", rec, genSerCase, checkC17)
+}
+
+// hasBlankEntry reports whether some group entry lacks its first field (such
+// messages are outside what the parser is required to read back).
+func hasBlankEntry(c *gen.Case) bool {
+	h, b, _ := gen.Wire(c)
+	leaves := append(h, b...)
+	for i, l := range leaves {
+		if l.Count {
+			n := 0
+			fmt.Sscan(l.Tok.Val, &n)
+			firsts := 0
+			for _, x := range leaves[i+1:] {
+				if x.Depth <= l.Depth {
+					break
+				}
+				if x.First && x.Depth == l.Depth+1 {
+					firsts++
+				}
+			}
+			if firsts != n {
+				return true
+			}
+		}
+	}
+	return false
 }
